@@ -487,7 +487,15 @@ func Ask(h *Handle, q *Query) {
 		fns = append(fns, BuildSelector(s))
 	}
 	q.Err, q.IDs, q.Bytes = "", nil, nil
+	q.Name, q.Arch, q.FP, q.Digest, q.Nums = nil, nil, nil, nil, nil
 	switch q.Kind {
+	case "meta":
+		d, err := h.F.GetDescriptor(sif.WithID(q.ID))
+		if err != nil {
+			q.Err = ErrClass(err)
+			return
+		}
+		AskMeta(d, q)
 	case "many":
 		ds, err := h.F.GetDescriptors(fns...)
 		if err != nil {
@@ -516,6 +524,55 @@ func Ask(h *Handle, q *Query) {
 			return
 		}
 		q.Bytes = b
+	}
+}
+
+// metaErr maps the error of a typed accessor to the codes of coq/Meta.v merr_code:
+// 0 none, 1 unexpected data type, 2 hash algorithm unsupported, 3 anything else (digest text).
+func metaErr(err error) int64 {
+	switch {
+	case err == nil:
+		return 0
+	case strings.Contains(err.Error(), "unexpected data type"):
+		return 1
+	case strings.Contains(err.Error(), "hash algorithm unsupported"):
+		return 2
+	}
+	return 3
+}
+
+// AskMeta records what every typed accessor of d returns (the QMeta answer).
+func AskMeta(d sif.Descriptor, q *Query) {
+	b2i := func(b bool) int64 {
+		if b {
+			return 1
+		}
+		return 0
+	}
+	q.Name = []byte(d.Name())
+	lid, isg := d.LinkedID()
+	q.Nums = []int64{int64(d.DataType()), int64(d.GroupID()), int64(lid), b2i(isg), d.Offset(), d.Size(),
+		d.CreatedAt().Unix(), d.ModifiedAt().Unix()}
+	fs, pt, arch, err := d.PartitionMetadata()
+	q.Nums = append(q.Nums, metaErr(err), int64(fs), int64(pt))
+	if err == nil {
+		q.Arch = []byte(arch)
+	}
+	ht, fp, err := d.SignatureMetadata()
+	if err != nil {
+		q.Nums = append(q.Nums, metaErr(err), 0, 0)
+	} else {
+		q.Nums = append(q.Nums, 0, int64(ht), b2i(fp != nil))
+		q.FP = fp
+	}
+	ft, mt, err := d.CryptoMessageMetadata()
+	q.Nums = append(q.Nums, metaErr(err), int64(ft), int64(mt))
+	sf, err := d.SBOMMetadata()
+	q.Nums = append(q.Nums, metaErr(err), int64(sf))
+	dg, err := d.OCIBlobDigest()
+	q.Nums = append(q.Nums, metaErr(err))
+	if err == nil {
+		q.Digest = []byte(dg.String())
 	}
 }
 
